@@ -907,6 +907,11 @@ zap_links(vbi_page *pg, int row)
 
 	len = j; /* characters in buffer, less than COLUMNS if cells were skipped */
 
+	/* The loop below stores link[0 ... len - 1] only, but skipped cells at
+	   the end of the row (the right half of a double width character in
+	   column 38) take their flag from link[len]. */
+	memset (link, 0, sizeof (link));
+
 	for (i = 0; i < len; i += n) { 
 		n = keyword(&ld, buffer, i + 1,
 			pg->pgno, pg->subno, &b);
